@@ -57,7 +57,7 @@ impl<T: CoordsFloat> CMap3<T> {
                 };
                 // compute the next images
                 match opolicy {
-                    // B3oB2, B1oB3, B1oB2, B3oB0, B2oB0
+                    // B3oB2, B1oB3, B1oB2, B3oB0, B2oB0, B2oB3
                     OrbitPolicy::Vertex => {
                         [
                             self.beta::<3>(self.beta::<2>(d)), // b3(b2(d))
@@ -65,6 +65,7 @@ impl<T: CoordsFloat> CMap3<T> {
                             self.beta::<1>(self.beta::<2>(d)), // b1(b2(d))
                             self.beta::<3>(self.beta::<0>(d)), // b3(b0(d))
                             self.beta::<2>(self.beta::<0>(d)), // b2(b0(d))
+                            self.beta::<2>(self.beta::<3>(d)), // b2(b3(d)), inverse of b3(b2(d))
                         ]
                         .into_iter()
                         .for_each(check);
@@ -165,7 +166,7 @@ impl<T: CoordsFloat> CMap3<T> {
                 };
                 // compute the next images
                 match opolicy {
-                    // B3oB2, B1oB3, B1oB2, B3oB0, B2oB0
+                    // B3oB2, B1oB3, B1oB2, B3oB0, B2oB0, B2oB3
                     OrbitPolicy::Vertex => {
                         let (b0, b2, b3) = (
                             self.beta_transac::<0>(t, d)?,
@@ -178,6 +179,7 @@ impl<T: CoordsFloat> CMap3<T> {
                             self.beta_transac::<1>(t, b2)?, // b1(b2(d))
                             self.beta_transac::<3>(t, b0)?, // b3(b0(d))
                             self.beta_transac::<2>(t, b0)?, // b2(b0(d))
+                            self.beta_transac::<2>(t, b3)?, // b2(b3(d)), inverse of b3(b2(d))
                         ]
                         .into_iter()
                         .for_each(check);
